@@ -107,7 +107,7 @@ def make_input(prog, idx, workdir, rng):
     from polyply import gen_seq
     if idx == 0:
         kw = dict(name="s", seq=["A", "B"], macro_strings=["A:3:1:PEO-1.0", "B:2:2:PS-1.0"], connects=["0:1:2-0"],
-                  modifications=["0:OHter"], tags=["1:chiral:R-1.0"])
+                  modifications=["0:OHter"], tags=["1:chiral:R\udce9-1.0"])       # a byte that is not UTF-8, as it arrives from a shell
     else:
         kw = dict(name="s", seq=["A"], macro_strings=["A:4:1:PEO-1.0"], connects=[], modifications=[], tags=[])
     return (lambda outpath: gen_seq(outpath=outpath, **kw)), ["seq.json", "out.json"][idx % 2]
@@ -415,7 +415,27 @@ def run_case(cid, rng, workdir):
         reset_state(os.path.join(d0, fname))
         STATE["discover"] = []
         seeded()
-        runner(Path(d0) / fname)
+        before0 = fs_snapshot(d0)
+        try:
+            runner(Path(d0) / fname)
+        except Exception as err0:          # noqa
+            if type(err0).__name__ == "CaseTimeout":
+                raise
+            # the un-faulted reference run fails by itself: whatever stage it failed in, the directory tells whether the
+            # failure came before anything was written
+            STATE["discover"] = None
+            after0 = fs_snapshot(d0)
+            res["sig"] = sig_of([prog, idx, mode, chunk])
+            res["nontrivial"] = True
+            if after0 != before0:
+                changed = sorted(set(after0) ^ set(before0)) + [k for k in after0 if k in before0 and after0[k] != before0[k]]
+                violation(res, "%s:failing-run-damages-output" % prog, "the run failed with %s: %s and the directory changed: %s" %
+                          (type(err0).__name__, str(err0)[:120], changed),
+                          {"program": prog, "input": idx, "before": {k: v[2:] for k, v in before0.items()},
+                           "after": {k: v[2:] for k, v in after0.items()}})
+            else:
+                res["status"] = "rejected"
+            return res
         points = list(STATE["discover"])
         STATE["discover"] = None
         ref_bytes = open(os.path.join(d0, fname), "rb").read()
@@ -450,6 +470,32 @@ def run_case(cid, rng, workdir):
                           "from the output of the same run into an empty directory (%d bytes)" % (len(ref_bytes), len(b2)), w0)
             if sorted(after) != sorted({fname, "other.txt"} | ({"#%s.1#" % fname} if prog != "gen_seq" else set())):
                 violation(res, "%s:stray-files-after-success" % prog, "directory after success: %s" % sorted(after), w0)
+            if prog != "gen_seq":
+                # the file at the output path is a symbolic link to a file kept elsewhere: that file is not the output and
+                # is left alone; what was at the path (the link) is backed up next to the output
+                d2 = fresh_outdir(workdir, fname, "link")
+                os.remove(os.path.join(d2, fname))
+                arch = os.path.join(d2, "archive")
+                os.makedirs(arch)
+                tgt = os.path.join(arch, "run1" + os.path.splitext(fname)[1])
+                with open(tgt, "w") as fh:
+                    fh.write("SENTINEL archived content\n")
+                os.symlink(tgt, os.path.join(d2, fname))
+                reset_state(os.path.join(d2, fname))
+                seeded()
+                runner(Path(d2) / fname)
+                bump(res, "success_runs_onto_a_symbolic_link")
+                if sorted(os.listdir(arch)) != [os.path.basename(tgt)] or open(tgt).read() != "SENTINEL archived content\n":
+                    violation(res, "%s:file-behind-a-link-at-the-output-path-touched" % prog, "the output path was a symbolic link to %s; "
+                              "after the run that directory holds %s and the file reads %r" %
+                              (os.path.relpath(tgt, d2), sorted(os.listdir(arch)), open(tgt).read()[:40] if os.path.exists(tgt) else None), w0)
+                if not os.path.exists(os.path.join(d2, fname)) or os.path.islink(os.path.join(d2, fname)) or \
+                        open(os.path.join(d2, fname), "rb").read().split(b"\n", 1)[-1] != b2.split(b"\n", 1)[-1] and prog != "gen_coords":
+                    violation(res, "%s:no-output-after-success" % prog, "output path was a symbolic link: after the run %s is %s" %
+                              (fname, "missing" if not os.path.exists(os.path.join(d2, fname)) else "still the link / incomplete"), w0)
+                if not os.path.lexists(os.path.join(d2, "#%s.1#" % fname)):
+                    violation(res, "%s:previous-file-not-backed-up" % prog, "output path was a symbolic link: no #%s.1# next to the "
+                              "output (%s)" % (fname, sorted(os.listdir(d2))), w0)
             return res
         # ---- injected faults ---------------------------------------------------------------------------------
         mine = points[chunk::NCHUNK]
